@@ -132,6 +132,7 @@ namespace BitSerializer::Csv::Detail
 			size_t doubleQuotesCount = 0;
 			size_t endValuePos = totalSize;
 			size_t precedingCrPos = std::string::npos;
+			bool endedBySeparator = false;
 
 			while (mCurrentPos < totalSize)
 			{
@@ -145,6 +146,7 @@ namespace BitSerializer::Csv::Detail
 				{
 					endValuePos = mCurrentPos;
 					++mCurrentPos;
+					endedBySeparator = true;
 					break;
 				}
 				// End of line (can be CRLF or just LF)
@@ -171,6 +173,11 @@ namespace BitSerializer::Csv::Detail
 			// Handle end of file (RFC: The last record in the file may or may not have an ending line break)
 			if (mCurrentPos == mSourceString.size())
 			{
+				// A separator as the last character of the input is followed by one more (empty) value
+				if (endedBySeparator)
+				{
+					out_values.emplace_back(mCurrentPos, 0, false);
+				}
 				break;
 			}
 		}
